@@ -268,6 +268,33 @@ def rule_shaving_loop(ctx: Ctx, prog: Program) -> None:
                           "the probing loop can go round again without having probed a bound: nothing has changed, so the same iteration "
                           "repeats forever (an iteration must probe, return or leave the loop)")
             continue
+        # the cursor of the scan never moves backwards: when it is set from the variable heuristic's answer, the heuristic was given the
+        # decision domains *whose value is at least the cursor* (a value filter `dd[dd >= cursor]`), so the answer is >= the cursor; a
+        # positional slice `dd[cursor:]` only coincides with it when the decision domains are sorted and contiguous
+        vhs = calls_named(bp.events, "first_not_instantiated_var_heuristic")
+        for vh_ in vhs:
+            ans = _call_result(bp.events, vh_)
+            set_from_answer = [nm for nm in guard_names if nm != flag and ans is not None and ans.single_atom() is not None
+                               and ans.single_atom() in atoms_in(it.scalar(s, s.env.get(nm)))]
+            if not set_from_answer or len(vh_.args) < 2:
+                continue
+            arg = as_view(vh_.args[1])
+            okf = False
+            if isinstance(arg, View) and len(arg.idx) == 1 and isinstance(arg.idx[0], Aff) and arg.idx[0].single_atom() is not None \
+                    and arg.idx[0].single_atom()[0] == "ge0":
+                X = arg.idx[0].single_atom()[1]
+                whole = Aff.atom(("init", arg.root, ()))
+                for nm in set_from_answer:
+                    cur = Aff.atom(("lv", nm, loop.loop_id))
+                    if isinstance(X, Aff) and (X - whole + cur).is_const() and (X - whole + cur).c >= 0:
+                        okf = True
+            if okf:
+                ctx.ok("R-SHAVE", "the scan cursor is set from an answer chosen among the decision domains whose value is >= the cursor")
+            else:
+                ctx.violation("R-SHAVE", fn.path, fn.name, "cursor-may-move-back", f"{fn.path}:{vh_.line}",
+                              f"the scan cursor ({', '.join(set_from_answer)}) is set from the variable heuristic's answer, but the heuristic is not given the "
+                              f"decision domains whose *value* is at least the cursor (got {arg!r}): with decision domains that are not sorted the answer "
+                              "can be smaller than the cursor, the scan goes backwards and the probing loop never ends")
         shaved_now = s.facts.decide(("ne0", _call_result(bp.events, probes[-1]))) if _call_result(bp.events, probes[-1]) is not None else None
         if shaved_now is False:
             moved = []
